@@ -10,6 +10,7 @@ import (
 	"regexp"
 	"strconv"
 	"strings"
+	"unicode/utf8"
 
 	"github.com/cockroachdb/errors"
 
@@ -277,6 +278,27 @@ func checkFormats(e error, lib bool) string {
 		if lib {
 			if got := fmt.Sprintf(f, e); got != want {
 				return fail("format-direct:"+f[len(f)-1:], "fmt.Sprintf(%q, e) = %q, fmt of the Error() string gives %q (%T)", f, short(got), short(want), e)
+			}
+		}
+	}
+	// widths chosen relative to the text: between its length in runes and
+	// its length in bytes (they differ for non-ASCII text), and just around
+	for _, w := range []int{utf8.RuneCountInString(txt) - 1, utf8.RuneCountInString(txt) + 1, len(txt), len(txt) + 1} {
+		if w <= 0 {
+			continue
+		}
+		for _, fl := range []string{"", "-", "0"} {
+			for _, verb := range []string{"v", "s", "q"} {
+				f := fmt.Sprintf("%%%s%d%s", fl, w, verb)
+				want := fmt.Sprintf(f, txt)
+				if got := fmt.Sprintf(f, errors.Formattable(e)); got != want {
+					return fail("format-formattable-width:"+verb, "fmt.Sprintf(%q, Formattable(e)) = %q, fmt of the Error() string gives %q", f, short(got), short(want))
+				}
+				if lib {
+					if got := fmt.Sprintf(f, e); got != want {
+						return fail("format-direct-width:"+verb, "fmt.Sprintf(%q, e) = %q, fmt of the Error() string gives %q (%T)", f, short(got), short(want), e)
+					}
+				}
 			}
 		}
 	}
